@@ -177,6 +177,21 @@ def dom_features(proj):
     return feats
 
 
+def live_features(rules):
+    """features read off the live objects: a style rule whose first selector begins with a comment (reachable by edits only: the
+    parser gives a comment in front of a rule to the rule list)"""
+    feats = set()
+    for r in rules:
+        try:
+            if r.type == r.STYLE_RULE and r.selectorList.length and r.selectorList[0].seq and r.selectorList[0].seq[0].type == 'COMMENT':
+                feats.add('selector.first-begins-with-comment')
+            elif r.type == r.MEDIA_RULE:
+                feats |= live_features(r.cssRules)
+        except Exception:
+            pass
+    return feats
+
+
 def nonempty_rules(rules):
     """rules whose own serialisation is non-empty (empty rules are dropped by the default preference keepEmptyRules=False,
     which is C06's business); nested lists are filtered the same way"""
@@ -225,7 +240,7 @@ def roundtrip_sheet(ctx, cssutils, sheet, origin, feats, case_extra=None, counte
         ctx.violation('roundtrip.exception', case, {'tb': core.short_tb(e)}, features=feats, site=core.raise_site(e))
         return None
     case['t1'] = t1.decode('utf-8', 'replace')
-    feats = sorted(set(feats) | dom_features(p1))
+    feats = sorted(set(feats) | dom_features(p1) | live_features(sheet.cssRules))
     d = P.diff(p1, p2)
     if d is not None:
         ctx.violation('roundtrip.projection', case, {'diff': d, 'errors_on_reparse': log.errors()[:4]}, features=feats)
@@ -330,7 +345,7 @@ def shipped(ctx, cssutils):
             node_roundtrips(ctx, cssutils, sheet, feats, 'shipped:' + fn, prefs={'resolveVariables': False})
 
 
-EDITS = ['setprop', 'removeprop', 'appendsel', 'insertrule', 'deleterule', 'setmedia', 'setmedia', 'mediumedit', 'mediumedit', 'addcomment', 'setvalue', 'importedit', 'importedit', 'blocktext', 'selectortext', 'pageedit', 'encoding']
+EDITS = ['setprop', 'removeprop', 'appendsel', 'insertrule', 'deleterule', 'setmedia', 'setmedia', 'mediumedit', 'mediumedit', 'addcomment', 'setvalue', 'importedit', 'importedit', 'blocktext', 'selectortext', 'pageedit', 'encoding', 'insertobject', 'insertobject']
 
 
 def random_edit(rng, cssutils, sheet):
@@ -453,6 +468,14 @@ def random_edit(rng, cssutils, sheet):
         if kind == 'encoding':
             e = rng.choice(['utf-8', 'ascii', 'iso-8859-1', None])
             sheet.encoding = e
+            if e in ('ascii', 'iso-8859-1') and rng.random() < 0.6:
+                # characters the new encoding cannot hold, inside comments at rule and at declaration level
+                sheet.add(cssutils.css.CSSComment('/* Gr\u00f6\u00dfe \u4e2d\u6587 %d */' % rng.randint(0, 9)))
+                srs = [r for r in rs if r.type == r.STYLE_RULE]
+                if srs:
+                    r = rng.choice(srs)
+                    r.style.cssText = r.style.cssText + ';/*\u0416 \u00e9*/'
+                return [kind, e, 'comments']
             return [kind, e]
         if kind == 'addcomment':
             sheet.add(cssutils.css.CSSComment('/* e %d */' % rng.randint(0, 9)))
@@ -466,6 +489,28 @@ def random_edit(rng, cssutils, sheet):
             v = rng.choice(['1px', 'a, b', '"x"', '10%'])
             p.value = v
             return [kind, p.name, v]
+        if kind == 'insertobject':
+            # a rule object that lives in another sheet (top level, inside @media, inside a nested @media) is handed to this sheet or to
+            # one of its @media rules; its selectors were resolved there, under another prefix.  Accepted or refused (NamespaceErr when
+            # this sheet does not declare the namespace): what the sheet then holds must round-trip
+            donor = cssutils.parseString('@namespace zp "urn:zdonor";zp|a{top:0}@media tv{zp|b{left:0}@media print{zp|c{top:1px}}}')
+            pick = rng.randrange(3)
+            obj = [donor.cssRules[1], donor.cssRules[2], donor.cssRules[2].cssRules[1]][pick]
+            declare = rng.random() < 0.6
+            if declare:
+                pos = len([r for r in rs if r.type in (r.CHARSET_RULE, r.IMPORT_RULE, r.NAMESPACE_RULE)])
+                sheet.insertRule('@namespace zq "urn:zdonor";', pos)
+            ms = [r for r in sheet.cssRules if r.type == r.MEDIA_RULE]
+            target = 'media' if ms and rng.random() < 0.5 else 'sheet'
+            try:
+                if target == 'media':
+                    rng.choice(ms).add(obj)
+                else:
+                    sheet.add(obj)
+                res = 'accepted'
+            except xml.dom.DOMException:
+                res = 'refused'
+            return [kind, pick, declare, target, res]
     except xml.dom.DOMException:
         return None
     return None
@@ -568,6 +613,11 @@ def replay(ctx, case):
                 imp[0].media.mediaText = op.split(':', 1)[1]
             elif op.startswith('import0.media.set:'):
                 imp[0].media = op.split(':', 1)[1]
+            elif op.startswith('style0.selectors.append:'):
+                [r for r in sheet.cssRules if r.type == r.STYLE_RULE][0].selectorList.appendSelector(op.split(':', 1)[1])
+            elif op == 'sheet.add-foreign-nested-media':
+                donor = cssutils.parseString('@namespace zp "urn:zdonor";zp|a{top:0}@media tv{zp|b{left:0}@media print{zp|c{top:1px}}}')
+                sheet.add(donor.cssRules[2].cssRules[1])
         roundtrip_sheet(ctx, cssutils, sheet, 'replay-edited', feats, {'source': case['source'], 'dom_script': case['dom_script']})
         return
     if case.get('source') is not None and not case.get('edits'):
